@@ -107,3 +107,31 @@ Example C01_reference_trickle_example :
   well_sized (fst (trickle_layout 2 chunks)) = true /\ content (fst (trickle_layout 2 chunks)) = concat chunks.
 Proof. exact trickle_demo. Qed.
 Print Assumptions C01_reference_trickle_example.
+
+(* the reference importer with PROTOBUF leaves (RawLeaves off), trickle layout (leaves of UnixFS type Raw) or balanced layout
+   (leaves of type File), both modelled over the leaf constructor in File/Trickle.v and compared with boxo's own DAGs for every
+   build case of every run: for every width >= 2 and every non-empty chunk list the DAG has true declared sizes and this library
+   reads it back exactly - whole value, every Seek/Read history, length *)
+Theorem C01_reference_protobuf_leaf_layouts_read_back : forall (W : nat) (chunks : list bytes),
+  (2 <= W)%nat -> chunks <> [] -> (blen (concat chunks) < bound63)%N ->
+  forall root, root = fst (trickle_layout_g mk_pbleaf_raw W chunks) \/ root = fst (balanced_layout_g mk_pbleaf W chunks) ->
+  well_sized root = true
+  /\ fst (fst (drain_all (stream nofault root 0) [] [])) = concat chunks
+  /\ snd (drain_all (stream nofault root 0) [] []) = StEOF
+  /\ (forall ops, map forget_loads (reader_run nofault root rs0 ops) = abs_run (concat chunks) 0 ops)
+  /\ node_length root = Ok (zlen (concat chunks)).
+Proof. exact reference_pb_layouts_read_back. Qed.
+Print Assumptions C01_reference_protobuf_leaf_layouts_read_back.
+
+(* the layout-generic balanced model over raw leaves is the reference layout of File/Builder.v, which C07 proves to be this
+   library's own DAG *)
+Theorem C01_generic_balanced_layout_is_the_reference_layout : forall W chunks, balanced_layout_g mk_leaf W chunks = ref_layout W chunks.
+Proof. exact balanced_raw_is_ref_layout. Qed.
+Print Assumptions C01_generic_balanced_layout_is_the_reference_layout.
+
+Example C01_reference_protobuf_leaf_example :
+  let chunks := [[1; 2]; [3]; [4; 5]; [6]; [7]; [8; 9]; [10]; [11]; [12]; [13]; [14]]%N in
+  well_sized (fst (trickle_layout_g mk_pbleaf_raw 2 chunks)) = true /\ content (fst (trickle_layout_g mk_pbleaf_raw 2 chunks)) = concat chunks
+  /\ well_sized (fst (balanced_layout_g mk_pbleaf 3 chunks)) = true /\ content (fst (balanced_layout_g mk_pbleaf 3 chunks)) = concat chunks.
+Proof. exact pb_layouts_demo. Qed.
+Print Assumptions C01_reference_protobuf_leaf_example.
